@@ -9,13 +9,19 @@ T  (a) translation validation of the generated kernels: Lean on Float vs the com
    (c) bitwise differential of `bodyCompile` / `applyTotalmass` (the inertial part of mjCBody::Compile: explicit inertial
        clause with diagonal or full inertia in any slot order, valid / lamina / non-physical / negative / indefinite,
        inertiafromgeom false|true|auto, inertiagrouprange, boundmass, boundinertia, balanceinertia, settotalmass)
-       against bodies compiled with those mjsBody fields and compiler options (`ibody` lines).
+       against bodies compiled with those mjsBody fields and compiler options (`ibody` lines);
+   (d) bitwise differential of `bodyCompileState` (the same code with the compile state mjCGeom::mass_ / inertia that
+       CopyFromSpec does not reset, threaded through the stages) against edit-then-recompile sequences on ONE mjSpec
+       (`redit` lines: 2-4 stages, every later stage edits 1-3 mass-relevant fields — geom density/mass/size/type/
+       shell/pose/group/order, body inertial clause, compiler options — and compiles again by mj_compile or mj_recompile).
 S  property oracle on the compiled output alone: analytic composition recomputed independently in Python (density ×
    volume, parallel axis), triangle inequality, reconstruction of the full tensor from (body_iquat, body_inertia),
    ellipsoid shell (Thomsen area, finite-difference shell inertia), exact polyhedral meshes, and convergence of
    procedural / generated tessellations of the primitives; for `ibody` cases: EVERY compiled body has non-negative
    moments with A + B >= C and respects the bounds, explicit clauses are stored as given / as the principal
-   decomposition of the given tensor, non-physical clauses are rejected or balanced, valid ones (incl. A + B == C) compile.
+   decomposition of the given tensor, non-physical clauses are rejected or balanced, valid ones (incl. A + B == C) compile;
+   for `redit` sequences: every stage of the recompiled spec equals, bitwise, a FRESH spec built with the stage's values
+   (and is then judged by the analytic `ibody` oracle).
 """
 import json
 import math
@@ -27,7 +33,7 @@ from checks import common
 
 META = {
     "technique": "c2lean translation of the user_util.cc helper kernels (regenerated every run) + hand model of mjCGeom::GetVolume/SetInertia, mjCBody::InertiaFromGeom/AccumulateInertia, mjuu_eig3/mjuu_fullInertia over a law-free number class + Lean 4 proofs over the reals (field_simp/ring against textbook formulas, induction over the geom list, quadratic-form argument for the triangle inequality) + bitwise differential of the model (Lean Float) against bodies compiled through the mjSpec C API + independent analytic oracle in Python incl. mesh tessellations",
-    "text": "Proved over the reals, for the model instantiated with pi = Real.pi: for every primitive geom type the volume (and the surface area used for shell inertia) computed by GetVolume equals the analytic value (sphere 4/3 pi r^3 / 4 pi r^2, capsule, cylinder incl. end disks, ellipsoid volume, box); with mass = density x volume the principal moments set by SetInertia equal the textbook composition for solid AND shell variants (solid sphere 2/5 M r^2, spherical shell 2/3 M r^2, solid/thin-walled cylinder with end disks, capsule = cylinder + two hemispheres moved by the parallel-axis theorem with centres of mass at 3r/8 resp. r/2, solid ellipsoid, solid box, box surface as six thin plates) for all positive sizes; a geom given by mass has the properties of density mass/volume; every primitive with non-negative mass and positive sizes satisfies A+B>=C (all ten type/shell cases except the ellipsoid shell); the inertia accumulated by the geom loop of InertiaFromGeom (and of AccumulateInertia) about a point c is exactly sum_i R_i diag(I_i) R_i^T + m_i(|d_i|^2 1 - d_i d_i^T) with the generated mjuu_globalinertia / mjuu_offcenter kernels (parallel_axis), the first loop yields total mass and the mass-weighted mean position, and the Huygens-Steiner theorem holds for the list (inertia about the origin = inertia about the centre of mass + M(|c|^2 1 - c c^T)); sums of parts with unit orientations, non-negative masses and A+B>=C satisfy the coordinate-free triangle inequality, hence every exact principal decomposition (unit q, lambda) of the accumulated tensor has lambda with A+B>=C; for a unit iquat the columns of its rotation matrix are eigenvectors of R diag(inertia) R^T with the stored moments as eigenvalues (principal_axes_reconstruct: the certificate the oracle checks on compiled bodies); for the inertial part of mjCBody::Compile (bodyCompile: explicit inertial clause with diagonal or full inertia, inertiafromgeom false/true/auto, inertiagrouprange, boundmass/boundinertia clamp, sign check, triangle check, balanceinertia) EVERY successful result, for all inputs and options, has non-negative mass and moments within the bounds satisfying A+B>=C in all three arrangements (bodyCompile_triangle / bodyFinish_triangle), physically valid values within the bounds incl. the lamina A+B=C pass unchanged and an explicit clause with unit quaternion is stored exactly as given (bodyFinish_physical, bodyCompile_explicit), non-physical moments in ANY slot order are rejected, or replaced by their mean under balanceinertia (bodyFinish_nonphysical); mj_setTotalmass multiplies all masses and moments by one positive factor, keeps the triangle inequality and reaches the requested total (setTotalmass_eq/_triangle/_total).",
+    "text": "Proved over the reals, for the model instantiated with pi = Real.pi: for every primitive geom type the volume (and the surface area used for shell inertia) computed by GetVolume equals the analytic value (sphere 4/3 pi r^3 / 4 pi r^2, capsule, cylinder incl. end disks, ellipsoid volume, box); with mass = density x volume the principal moments set by SetInertia equal the textbook composition for solid AND shell variants (solid sphere 2/5 M r^2, spherical shell 2/3 M r^2, solid/thin-walled cylinder with end disks, capsule = cylinder + two hemispheres moved by the parallel-axis theorem with centres of mass at 3r/8 resp. r/2, solid ellipsoid, solid box, box surface as six thin plates) for all positive sizes; a geom given by mass has the properties of density mass/volume; every primitive with non-negative mass and positive sizes satisfies A+B>=C (all ten type/shell cases except the ellipsoid shell); the inertia accumulated by the geom loop of InertiaFromGeom (and of AccumulateInertia) about a point c is exactly sum_i R_i diag(I_i) R_i^T + m_i(|d_i|^2 1 - d_i d_i^T) with the generated mjuu_globalinertia / mjuu_offcenter kernels (parallel_axis), the first loop yields total mass and the mass-weighted mean position, and the Huygens-Steiner theorem holds for the list (inertia about the origin = inertia about the centre of mass + M(|c|^2 1 - c c^T)); sums of parts with unit orientations, non-negative masses and A+B>=C satisfy the coordinate-free triangle inequality, hence every exact principal decomposition (unit q, lambda) of the accumulated tensor has lambda with A+B>=C; for a unit iquat the columns of its rotation matrix are eigenvectors of R diag(inertia) R^T with the stored moments as eigenvalues (principal_axes_reconstruct: the certificate the oracle checks on compiled bodies); for the inertial part of mjCBody::Compile (bodyCompile: explicit inertial clause with diagonal or full inertia, inertiafromgeom false/true/auto, inertiagrouprange, boundmass/boundinertia clamp, sign check, triangle check, balanceinertia) EVERY successful result, for all inputs and options, has non-negative mass and moments within the bounds satisfying A+B>=C in all three arrangements (bodyCompile_triangle / bodyFinish_triangle), physically valid values within the bounds incl. the lamina A+B=C pass unchanged and an explicit clause with unit quaternion is stored exactly as given (bodyFinish_physical, bodyCompile_explicit), non-physical moments in ANY slot order are rejected, or replaced by their mean under balanceinertia (bodyFinish_nonphysical); mj_setTotalmass multiplies all masses and moments by one positive factor, keeps the triangle inequality and reaches the requested total (setTotalmass_eq/_triangle/_total); compile state across compiles of an edited spec (bodyCompileState threads mjCGeom::mass_/inertia, the only mass-relevant members CopyFromSpec does not reset): a first compile is the stateless model (geomCompileState_fresh); what InertiaFromGeom selects from an inferred geom, the selected list, and the body's compiled mass properties are INDEPENDENT of the state left by earlier compiles (recompiled = fresh) whenever the body infers inertia from geoms and no geom in the group range is staleGeom (defined non-zero mass with volume <= mjEPS: Compile then writes neither mass_ nor inertia) (geomCompileState_indep, compileGeoms_sel_indep, bodyCompileState_indep), and likewise for an explicit inertial clause that the geoms do not override (bodyCompileState_explicit_indep); the two excluded classes are exactly the two stale-state findings on /repo.",
     "note": "Partial: the Jacobi iteration mjuu_eig3 is modelled and tied bitwise but NOT proved to diagonalise (inertiaFromGeom_spec_partial states the result is mjuu_fullInertia of the analytic tensor about the weighted-mean point; diagonalisation is checked per compiled body by the reconstruction certificate, measured accuracy ~1e-6 relative because the C loop stops when cos > 1 - 1e-12). Not modelled, oracle only: mesh volume/inertia integrals of user_mesh.cc (exact polyhedra compared at 1e-9, tessellations of sphere / ellipsoid / cylinder / capsule / box converge to the primitive; collision meshes need qhull which is stubbed, so only non-colliding mesh geoms are compiled; mjMESH_INERTIA_CONVEX cannot be exercised), the ellipsoid shell (std::pow Thomsen area: compared with a numerical surface integral at 1.5%; finite-difference shell inertia compared with the analytic thin-shell limit at 1e-4), free-joint alignment (alignfree) and bodies with a non-default body frame or a parent frame (the `ibody` body is a static child of the world with default frame), ialt orientation alternatives of the inertial frame (C36 covers the orientation resolver). bodyCompile / bodyFinish / setTotalmass are hand models tied by the bitwise differential over all branch combinations (distribution in ibody_distribution), not by c2lean (struct member access). pi is a parameter of the model: the driver passes the mjPI literal, the theorems Real.pi. The specification formulas are closed forms (textbook decomposition), not Lebesgue integrals. Reals vs IEEE doubles: rounding is outside the proofs. src/xml is stubbed: bodies are built through the mjSpec C API.",
 }
 
@@ -46,6 +52,8 @@ THEOREMS = [P + t for t in (
     "bodyFinish_triangle", "bodyFinish_frame", "bodyFinish_physical", "bodyFinish_nonphysical",
     "bodyCompile_triangle", "bodyCompile_explicit",
     "setTotalmass_eq", "setTotalmass_triangle", "setTotalmass_total",
+    "geomCompileState_fresh", "geomCompileState_indep", "compileGeoms_sel_indep", "bodyCompileState_indep",
+    "bodyCompileState_explicit_indep",
 )]
 
 # generated kernels the model / theorems depend on (a refusal breaks the tie)
@@ -435,6 +443,108 @@ def gen_ibody_lines(ctx):
         cases.append(None)
     ctx.extra["ibody_distribution"] = hist
     return lines, cases
+
+
+# ---- edit-then-recompile sequences on ONE spec (compile state surviving between compiles)
+INERTIAL_KEYS = ("mass", "ipos", "iquat", "diag", "full", "hasfull", "expl", "hasipos", "ikind", "fullev")
+OPTION_KEYS = ("bm", "bi", "bal", "ifg", "range", "stm")
+
+
+def redit_edit(rng, c):
+    """one edit of a mass-relevant field of the stage `c` (in place); returns its name"""
+    import copy
+    kinds = ["opt"] * 2 + ["inertial"] * 2
+    if c["geoms"]:
+        kinds += ["density0", "density0", "mass0", "density", "mass", "size", "tiny", "type", "shell", "pose", "group",
+                  "density0", "swap", "size", "type", "shell"]
+    k = rng.choice(kinds)
+    if k == "opt":
+        f = ribody(rng)
+        key = rng.choice(OPTION_KEYS)
+        c[key] = f[key]
+        return "compiler." + key
+    if k == "inertial":
+        f = ribody(rng)
+        for key in INERTIAL_KEYS:
+            if key in f:
+                c[key] = copy.deepcopy(f[key])
+            else:
+                c.pop(key, None)
+        return "inertial"
+    g = rng.choice(c["geoms"])
+    if k == "density0":
+        g["um"], g["md"] = 0, 0.0
+    elif k == "mass0":
+        g["um"], g["md"] = 1, 0.0
+    elif k == "density":
+        g["um"], g["md"] = 0, rng.choice((1000.0, rng.uniform(0.5, 5000)))
+    elif k == "mass":
+        g["um"], g["md"] = 1, rng.uniform(0.05, 20.0)
+    elif k == "size":
+        g["s"] = [rsize(rng) for _ in range(3)]
+    elif k == "tiny":          # volume / area below mjEPS: a defined mass is then not applied
+        e = rng.choice((1e-6, 1e-8))
+        g["s"] = [e * rng.uniform(0.5, 1.0) for _ in range(3)]
+        if rng.random() < 0.7:
+            g["um"], g["md"] = 1, rng.uniform(0.05, 20.0)
+    elif k == "type":
+        g["t"] = rng.choice(TYPES)
+        if g["t"] == ELLIPSOID:
+            g["sh"] = 0
+    elif k == "shell":
+        g["sh"] = 0 if (g["sh"] or g["t"] == ELLIPSOID) else 1
+    elif k == "pose":
+        g["pos"] = [rng.uniform(-1, 1) for _ in range(3)]
+        g["q"] = rquat(rng)
+    elif k == "group":
+        g["group"] = rng.randint(0, 5)
+    elif k == "swap" and len(c["geoms"]) >= 2:
+        a, b = rng.sample(range(len(c["geoms"])), 2)
+        c["geoms"][a], c["geoms"][b] = c["geoms"][b], c["geoms"][a]
+    return "geom." + k
+
+
+def gen_redit_lines(ctx):
+    import copy
+    rng = ctx.rng
+    ncase = 2500 if ctx.tier == "thorough" else 220
+    lines, seqs, hist = [], [], {}
+    for _ in range(ncase):
+        c = ribody(rng)
+        n = rng.choice((1, 2, 2, 3, 4)) if rng.random() < 0.9 else 0
+        while len(c["geoms"]) < n:
+            g = rgeom(rng)
+            g["group"] = rng.randint(0, 5)
+            c["geoms"].append(g)
+        c["geoms"] = c["geoms"][:n]
+        if rng.random() < 0.5:        # plain body first: defaults, inertia inferred from all geoms
+            c.update({"bm": 0.0, "bi": 0.0, "bal": 0, "ifg": 2, "range": [0, 5], "stm": -1.0})
+        k = rng.choice((2, 2, 3, 4))
+        stages, edits = [c], [[]]
+        for _ in range(k - 1):
+            d = copy.deepcopy(stages[-1])
+            ed = [redit_edit(rng, d) for _ in range(rng.choice((1, 1, 2, 3)))]
+            stages.append(d)
+            edits.append(ed)
+        api = rng.randrange(2)
+        toks = ["redit", str(api), str(k), str(n)]
+        for st in stages:
+            toks += ibody_line(st).split()[1:28]
+            for g in st["geoms"]:
+                toks += [str(g["group"])] + geom_tokens(g)
+        lines.append(" ".join(toks))
+        seqs.append({"api": api, "stages": stages, "edits": edits})
+        for ed in edits[1:]:
+            for e in ed:
+                hist[e] = hist.get(e, 0) + 1
+        hist["api=%d" % api] = hist.get("api=%d" % api, 0) + 1
+        hist["stages=%d" % k] = hist.get("stages=%d" % k, 0) + 1
+    good = lines[0].split()
+    for bad in (good[:40], [good[0], "2"] + good[2:], good[:2] + ["0"] + good[3:], good + ["0"]):
+        lines.append(" ".join(bad))
+        seqs.append(None)
+    ctx.extra["redit_distribution"] = hist
+    return lines, seqs
 
 
 def gen_kernel_lines(ctx, manifest):
@@ -875,13 +985,42 @@ def mesh_oracle(ctx, orc, impl):
     ctx.extra["mesh_exact_cases"] = nexact
 
 
+def fmt_out(o):
+    t = o.split()
+    if len(t) != 11:
+        return o
+    v = [unb(x) for x in t]
+    return "mass %.6g ipos %s inertia %s" % (v[0], ["%.4g" % x for x in v[1:4]], ["%.6g" % x for x in v[8:11]])
+
+
+def stale_class(sq, j):
+    """stable class of a recompiled != fresh disagreement at stage j.  By bodyCompileState_indep /
+    bodyCompileState_explicit_indep the compiled body can depend on the state left by earlier compiles only through
+    (1) a geom in the group range whose inertia is inferred and that has a defined non-zero mass with volume <= mjEPS
+    (Compile writes neither mass_ nor inertia), or (2) explicitinertial set while ipos is undefined under
+    inertiafromgeom = auto (InertiaFromGeom runs over geoms that were not compiled for inertia).  Both are recorded
+    findings on /repo; anything else is an unexplained stale state."""
+    st = sq["stages"][j]
+    infer = (not st["expl"]) or st["ifg"] == 1
+    call = st["ifg"] == 1 or (not st["hasipos"] and st["ifg"] == 2)
+    lo, hi = st["range"]
+    if infer:
+        if any(lo <= g["group"] <= hi and g["um"] and g["md"] != 0 and not (g["t"] == ELLIPSOID and g["sh"])
+               and volume(g["t"], bool(g["sh"]), g["s"]) <= 1e-14 for g in st["geoms"]):
+            return "stale-geom-mass:mass-with-volume-below-mjEPS"
+    elif call:
+        return "stale-geom-mass:explicitinertial-without-ipos"
+    return "stale-state"
+
+
 def run(ctx):
     ctx.rule = ("op lines: `vol`/`inert` per primitive type x {solid, shell} with sizes in [0.005, 3], `body` with 1-5 posed "
                 "geoms (mass or density given, unit / unnormalised / identity / 90-degree quaternions, coincident and identical "
                 "parts, parts below the mass threshold), `ibody` with an inertial clause (none / diagonal valid, unsorted, lamina, "
                 "non-physical in each slot, negative, zero / full valid, diagonal, non-physical, indefinite, with diagonal) x "
                 "compiler options (boundmass, boundinertia, balanceinertia, inertiafromgeom, inertiagrouprange, settotalmass) x "
-                "0-4 grouped geoms, kernel lines for the generated user_util.cc kernels, mesh lines "
+                "0-4 grouped geoms, `redit` edit+recompile sequences (2-4 stages on one spec, 1-3 field edits per stage, mj_compile / "
+                "mj_recompile), kernel lines for the generated user_util.cc kernels, mesh lines "
                 "(exact polyhedra, refinement sequences); a case is distinct by its full line; non-trivial = every accepted op")
     # ---- T: regenerate the user_util kernels from the working tree
     r = common.sh([sys.executable, os.path.join(common.VERIF, "translate", "c35_userutil.py")], timeout=900)
@@ -933,6 +1072,51 @@ def run(ctx):
         orc.check_ibody(line, out, c)
     ctx.extra["ibody_cases"] = {"total": len(ilines) - 5, "rejected_by_compiler": nerr,
                                 "fully_predicted_by_oracle": getattr(orc, "nibody_full", 0)}
+    # ---- T (d) + S: edit-then-recompile sequences on one spec
+    rlines, rseqs = gen_redit_lines(ctx)
+    ctx.differential("edit + recompile sequences on one mjSpec: bodyCompileState (geom compile state mass_/inertia threaded "
+                     "through the stages) vs mj_compile / mj_recompile of the edited spec, bitwise",
+                     [drv], [impl], rlines, keyf=lambda l: l if len(l.split()) >= 31 else None)
+    rc, routs, err = ctx.run_lines([impl], rlines)
+    if rc != 0 or len(routs) != len(rlines):
+        ctx.oracle_failure("c35:crash", "c35_mass crashed on redit lines (rc=%s)" % rc, {"stderr": err[-500:]})
+        return
+    flines, fidx = [], []
+    for i, sq in enumerate(rseqs):
+        if sq is None:
+            if routs[i] != "bad-op":
+                orc.fail("malformed-accepted", "malformed op accepted", {"line": rlines[i][:300], "impl_output": routs[i]})
+            continue
+        for j, st in enumerate(sq["stages"]):
+            flines.append(ibody_line(st))
+            fidx.append((i, j))
+    rc, fouts, err = ctx.run_lines([impl], flines)
+    if rc != 0 or len(fouts) != len(flines):
+        ctx.oracle_failure("c35:crash", "c35_mass crashed on the fresh counterparts of redit lines (rc=%s)" % rc, {"stderr": err[-500:]})
+        return
+    nstage = nstale = 0
+    for (i, j), fl, fo in zip(fidx, flines, fouts):
+        sq = rseqs[i]
+        parts = routs[i].split(" | ")
+        if routs[i] == "unsupported":
+            continue
+        if len(parts) != len(sq["stages"]):
+            orc.fail("redit:malformed-output", "unexpected output " + routs[i][:100], {"line": rlines[i][:3000]})
+            continue
+        nstage += 1
+        if parts[j] != fo:
+            nstale += 1
+            st = sq["stages"][j]
+            cls = stale_class(sq, j)
+            orc.fail("recompile:" + cls,
+                     "stage %d of an edit+recompile sequence (api %s, edits %s) compiles to %s but a fresh spec with the same "
+                     "values compiles to %s" % (j + 1, "mj_recompile" if sq["api"] else "mj_compile", sq["edits"][j], fmt_out(parts[j]), fmt_out(fo)),
+                     {"line": rlines[i][:6000], "stage": j + 1, "impl_output": routs[i], "fresh_line": fl, "fresh_output": fo,
+                      "edits": sq["edits"], "stage_values": st, "replay": "echo '<line>' | <c35_mass harness>; echo '<fresh_line>' | <c35_mass harness>"})
+        else:
+            # the recompiled result also has to be the analytic one
+            orc.check_ibody(rlines[i], parts[j], sq["stages"][j])
+    ctx.extra["redit_cases"] = {"sequences": len(rlines) - 4, "stages_compared_with_fresh": nstage, "stages_differing": nstale}
     rc, outs, err = ctx.run_lines([impl], lines)
     if rc != 0 or len(outs) != len(lines):
         ctx.oracle_failure("c35:crash", "c35_mass crashed (rc=%s)" % rc, {"stderr": err[-500:]})
